@@ -145,15 +145,8 @@ def build_job(job, work, verbose=False):
     cur = a
     contract_mode = bool(job["enforce"] or job["enforce_rec"] or job["replace"] or job.get("loop_contracts")
                          or job.get("apply_loop_contracts"))
-    # dfcc removes unused functions itself, and must still see spec functions that only contracts call
-    if job.get("drop_unused", not contract_mode):
-        b = os.path.join(work, "a1.gb")
-        c = ["goto-instrument", "--drop-unused-functions", cur, b]
-        cmds.append(c)
-        rc, so, se, dt = sh(c, 120, cwd=work)
-        if rc != 0:
-            raise MachineryError("drop-unused failed: " + (se or so)[-800:])
-        cur = b
+    contract_mode = bool(job["enforce"] or job["enforce_rec"] or job["replace"] or job.get("loop_contracts")
+                         or job.get("apply_loop_contracts"))
     if job.get("restrict_fp"):
         b = os.path.join(work, "a2.gb")
         c = ["goto-instrument"]
@@ -164,6 +157,15 @@ def build_job(job, work, verbose=False):
         rc, so, se, dt = sh(c, 120, cwd=work)
         if rc != 0:
             raise MachineryError("restrict-function-pointer failed: " + (se or so)[-800:])
+        cur = b
+    # dfcc removes unused functions itself, and must still see spec functions that only contracts call
+    if job.get("drop_unused", not contract_mode):
+        b = os.path.join(work, "a1.gb")
+        c = ["goto-instrument", "--drop-unused-functions", cur, b]
+        cmds.append(c)
+        rc, so, se, dt = sh(c, 120, cwd=work)
+        if rc != 0:
+            raise MachineryError("drop-unused failed: " + (se or so)[-800:])
         cur = b
     if contract_mode:
         b = os.path.join(work, "b.gb")
